@@ -354,7 +354,7 @@ func (g *gctx) nextRequest(last *int64) request {
 			g.genSpecRes(st, id, q.parent, &q)
 		}
 		return request{kUpdate, q}
-	case roll < 92 && len(ex) > 0: // DELETE
+	case roll < 89 && len(ex) > 0: // DELETE
 		id := vh.Pick(r, ex)
 		if r.Chance(1, 10) && len(fresh) > 0 {
 			id = vh.Pick(r, fresh)
@@ -367,8 +367,15 @@ func (g *gctx) nextRequest(last *int64) request {
 			}
 		}
 		return request{kDelete, qspec{name: id}}
-	case roll < 97 && len(ex) > 0: // scheduler reports allocated pods
-		return request{kEnv, qspec{name: vh.Pick(r, ex), alloc: int64(r.Intn(2) * r.Range(1, 5))}}
+	case roll < 97 && len(ex) > 0: // status update: allocated pods (scheduler) and / or state (queue controller)
+		q := qspec{name: vh.Pick(r, ex), alloc: -1, state: -1}
+		if r.Chance(1, 2) {
+			q.alloc = int64(r.Intn(2) * r.Range(1, 5))
+		}
+		if q.alloc < 0 || r.Chance(1, 2) {
+			q.state = int64(vh.Pick(r, []int{1, 1, 2, 2, 2, 3, 4, 0}))
+		}
+		return request{kEnv, q}
 	default: // UPDATE of a queue that does not exist
 		id := int64(r.Range(3, maxID))
 		q := qspec{name: id, parent: 1}
@@ -410,7 +417,7 @@ func describe(r request, v int64) string {
 	case kDelete:
 		return fmt.Sprintf("DELETE %s -> %d", qname(r.q.name), v)
 	}
-	return fmt.Sprintf("STATUS %s allocated pods=%d", qname(r.q.name), r.q.alloc)
+	return fmt.Sprintf("STATUS %s allocated pods=%d state=%d (0 unset 1 Open 2 Closed 3 Closing 4 Unknown, -1 unchanged)", qname(r.q.name), r.q.alloc, r.q.state)
 }
 
 // safeStep is false when the code under test panicked on the request
@@ -490,6 +497,18 @@ func gen(rng *vh.Rng, n int, emit func(id string, sel int, in []int64, kind stri
 		{kCreate, qspec{name: 7, parent: 1, cap: rl{{2, 2000}, {3, 64000}}}}, mv(3, 7),
 		{kCreate, qspec{name: 8, parent: 1, cap: rl{{3, 64000}}}}, mv(3, 8)}},
 		"fixed-subtree-capability-per-dimension", "fixed/reparent-subtree-capability", emit)
+	// a closed child still holds its share: p (cpu 10000) <- a (6000, then Closed); b with 6000 is refused
+	// when created in, moved into or resized inside p; b with 4000 fits; a re-opened
+	ten := func(id, parent, v int64) qspec {
+		return qspec{name: id, parent: parent, des: rl{{2, v}}, guar: rl{{2, v}}}
+	}
+	st := func(id, state int64) request { return request{kEnv, qspec{name: id, alloc: -1, state: state}} }
+	finish(history{config{5, 0, 0}, []qspec{root, def}, []request{
+		{kCreate, ten(3, 1, 10000)}, {kCreate, ten(4, 3, 6000)}, st(4, 2),
+		{kCreate, ten(5, 3, 6000)}, {kCreate, ten(5, 1, 6000)}, {kUpdate, ten(5, 3, 6000)},
+		{kUpdate, ten(5, 3, 4000)}, {kUpdate, ten(5, 3, 5000)}, st(4, 3), {kUpdate, ten(4, 3, 5000)}, st(4, 1),
+		{kUpdate, ten(4, 3, 7000)}}},
+		"fixed-closed-sibling", "fixed/closed-sibling-sum", emit)
 	// the root queue itself given a parent
 	finish(history{config{5, 0, 1}, []qspec{root, def}, []request{mk(3, 1), mk(4, 3), mv(1, 4), mv(1, 1), mk(5, 4), mv(3, 5)}},
 		"fixed-root-reparent", "fixed/root-given-a-parent", emit)
@@ -501,6 +520,10 @@ func gen(rng *vh.Rng, n int, emit func(id string, sel int, in []int64, kind stri
 			finish(g.directedMove(), fmt.Sprintf("hist-%d", i), "history/directed-subtree-move", emit)
 			continue
 		}
+		if r.Chance(1, 8) {
+			finish(g.directedClosedSibling(), fmt.Sprintf("hist-%d", i), "history/directed-closed-sibling", emit)
+			continue
+		}
 		cfg := g.genConfig()
 		kind := "history/from-root"
 		q0 := baseQ0(r)
@@ -510,7 +533,7 @@ func gen(rng *vh.Rng, n int, emit func(id string, sel int, in []int64, kind stri
 			m := r.Range(2, 7)
 			for k := 0; k < m; k++ {
 				id := int64(3 + k)
-				q := qspec{name: id, alloc: int64(r.Intn(3) / 2 * 2)}
+				q := qspec{name: id, alloc: int64(r.Intn(3) / 2 * 2), state: int64(vh.Pick(r, []int{0, 1, 1, 2, 3, 4}))}
 				switch x := r.Intn(10); {
 				case x < 2:
 					q.parent = int64(r.Intn(2))
